@@ -8,7 +8,7 @@ from .common import ScriptedApp, build_request, token_body
 
 PROPERTY = "C18"
 LEVEL = "exploration"
-BUDGET = {"quick": 30, "thorough": 600}
+BUDGET = {"quick": 40, "thorough": 600}
 BEHAV = ["idle", "partial", "request", "request_stall", "two_requests", "request_then_partial", "fin_later", "slow_reader",
          "trickle"]
 EVIDENCE = {
